@@ -30,9 +30,14 @@ class World:
         self.pre_published = set()
 
 
+S2C_EVENT_CH = {"SE0": 2, "SEI": 3, "SEM": 4, "SEU": 5, "ST": 6}
+C2S_EVENT_CH = {"CE0": 1, "CEM": 2, "CT": 3}
+
+
 def gen_script(rng, nclients=None, policy=None, track=None, auth=None, length=None, periodic=False,
-               late_join=True, sessions=False, weights=None, max_size=None):
-    w = dict(sop=5.0, sframe=3.0, cframe=2.5, deliver=4.0, drop=0.6, session=0.25 if sessions else 0.0)
+               late_join=True, sessions=False, weights=None, max_size=None, events=False):
+    w = dict(sop=5.0, sframe=3.0, cframe=2.5, deliver=4.0, drop=0.6, session=0.25 if sessions else 0.0,
+             sev=2.0 if events else 0.0, cev=1.2 if events else 0.0, edeliver=3.0 if events else 0.0)
     if weights:
         w.update(weights)
     nclients = nclients or rng.choice([1, 1, 2, 2, 3])
@@ -154,8 +159,10 @@ def gen_script(rng, nclients=None, policy=None, track=None, auth=None, length=No
                 lines.append("sop mutate %d %d=%s" % (e, k, v))
 
     wd.used_pre = set()
+    seq = [0]
     for _ in range(length):
-        choices = [("sop", w["sop"]), ("sframe", w["sframe"]), ("cframe", w["cframe"]), ("deliver", w["deliver"]), ("drop", w["drop"]), ("session", w["session"])]
+        choices = [("sop", w["sop"]), ("sframe", w["sframe"]), ("cframe", w["cframe"]), ("deliver", w["deliver"]), ("drop", w["drop"]), ("session", w["session"]),
+                   ("sev", w["sev"]), ("cev", w["cev"]), ("edeliver", w["edeliver"])]
         total = sum(x for _, x in choices)
         r = rng.random() * total
         kind = None
@@ -164,7 +171,47 @@ def gen_script(rng, nclients=None, policy=None, track=None, auth=None, length=No
                 kind = name
                 break
             r -= x
-        if kind == "sop" and running:
+        if kind == "sev" and running:
+            ty = rng.choice(["SE0", "SE0", "SEI", "SEM", "SEU", "ST"])
+            modes = ["b", "b", "ds"] + ["x%d" % c for c in connected] + ["d%d" % c for c in connected]
+            mode = rng.choice(modes)
+            seq[0] += 1
+            ent = ""
+            spawned = list(range(1, wd.next_id))
+            if ty == "SEM":
+                if not spawned:
+                    continue
+                ent = " r%d" % rng.choice(spawned)
+            elif ty == "ST" and spawned and rng.random() < 0.7:
+                ent = " r%d" % rng.choice(spawned)
+            lines.append("sop ev %s %s %d%s" % (ty, mode, seq[0], ent))
+        elif kind == "cev" and connected:
+            c = rng.choice(sorted(connected))
+            ty = rng.choice(["CE0", "CE0", "CEM", "CT"])
+            seq[0] += 1
+            ent = ""
+            spawned = list(range(1, wd.next_id))
+            if ty == "CEM":
+                if not spawned:
+                    continue
+                ent = " r%d" % rng.choice(spawned)
+            elif ty == "CT" and spawned and rng.random() < 0.7:
+                ent = " r%d" % rng.choice(spawned)
+            lines.append("cop %d ev %s %d%s" % (c, ty, seq[0], ent))
+            lines.append("cframe %d" % c)
+        elif kind == "edeliver" and connected:
+            c = rng.choice(sorted(connected))
+            if rng.random() < 0.7:
+                ty = rng.choice(list(S2C_EVENT_CH))
+                ch = S2C_EVENT_CH[ty]
+                if ty == "SEU":
+                    lines.append("%s %d s2c %d %s" % (rng.choice(["deliver", "deliver", "drop"]), c, ch, rng.choice(["first", "last", "all"])))
+                else:
+                    lines.append("deliver %d s2c %d %s" % (c, ch, rng.choice(["first", "all", "all"])))
+            else:
+                ty = rng.choice(list(C2S_EVENT_CH))
+                lines.append("deliver %d c2s %d %s" % (c, C2S_EVENT_CH[ty], rng.choice(["first", "all", "all"])))
+        elif kind == "sop" and running:
             sop()
         elif kind == "sframe":
             tick = rng.random() < 0.45
@@ -234,7 +281,7 @@ def gen_script(rng, nclients=None, policy=None, track=None, auth=None, length=No
         if late_join and running and len(connected) < nclients and rng.random() < 0.04:
             free = [c for c in range(nclients) if c not in connected]
             connect(rng.choice(free))
-    return lines, dict(nclients=nclients, policy=policy, track=track, auth=auth, connected=sorted(connected),
+    return lines, dict(nclients=nclients, policy=policy, track=track, auth=auth, events=events, connected=sorted(connected),
                        authorized=sorted(c for c in connected if connected[c]["authorized"]))
 
 
@@ -246,7 +293,13 @@ def settle_lines(meta, rounds=3):
         for c in meta["connected"]:
             out.append("deliver %d s2c 0 all" % c)
             out.append("deliver %d s2c 1 all" % c)
+            if meta.get("events"):
+                for ch in sorted(S2C_EVENT_CH.values()):
+                    out.append("deliver %d s2c %d all" % (c, ch))
             out.append("cframe %d" % c)
             out.append("deliver %d c2s 0 all" % c)
+            if meta.get("events"):
+                for ch in sorted(C2S_EVENT_CH.values()):
+                    out.append("deliver %d c2s %d all" % (c, ch))
     out.append("sframe 1 16")        # quiescent tick: must be silent (C11)
     return out
